@@ -17,6 +17,7 @@ import Distill.Model.TextDoc
 import Distill.Model.Pagination
 import Distill.Model.PageGroups
 import Distill.Model.PathPattern
+import Distill.Model.Filters
 namespace Distill.Slices
 open Distill Distill.Proto
 
@@ -392,6 +393,44 @@ def prevnextSlice : P String := do
   let cs ← many nc (do let h ← str; let sc ← int; pure ({ href := h, score := sc } : Pg.Cand))
   pure (hex (Pg.prevNextResult banned cs))
 
+
+def labelsP : P Flt.Labels := do
+  let t ← tok
+  let c := t.toList
+  if c.length != 11 then failure
+  let g (i : Nat) : Bool := c[i]? == some '1'
+  pure { title := g 0, mightBe := g 1, veryLikely := g 2, li := g 3, heading := g 4, h1 := g 5, h2 := g 6,
+         h3 := g 7, bhf := g 8, snc := g 9, sibling := g 10 }
+
+def labelsStr (l : Flt.Labels) : String :=
+  String.ofList ([l.title, l.mightBe, l.veryLikely, l.li, l.heading, l.h1, l.h2, l.h3, l.bhf, l.snc, l.sibling].map
+    (fun b => if b then '1' else '0'))
+
+def tbStr (b : Flt.TB) : String :=
+  s!"{",".intercalate (b.members.map toString)}/{b.numWords}/{b.numAnchor}/{b.tagLevel}/{b.offStart}/{b.offEnd}/{labelsStr b.labels}/{bstr b.content}"
+
+/-- `filters n (k member* numWords numAnchor tagLevel offStart offEnd labels content)*
+    (repParent repKind gpFirst gpLast term titleMatch)*` → the block list after each of the filters
+    3 … 14 with the filter's `changed` answer, the word count, and the Text elements ApplyToModel
+    flags; `P` when an index of the model's SimilarSiblingContent is out of range -/
+def filtersSlice : P String := do
+  let n ← nat
+  let blocks ← many n (do
+    let k ← nat; let ms ← many k nat
+    let nw ← nat; let na ← nat; let tl ← int; let os ← int; let oe ← int; let ls ← labelsP; let c ← bool
+    pure (ms, nw, na, tl, os, oe, ls, c))
+  let atoms ← many n (do
+    let rp ← nat; let rk ← str; let gf ← nat; let gl ← nat; let tm ← bool; let ti ← bool
+    pure ({ repParent := rp, repKind := rk, gpFirst := gf, gpLast := gl, term := tm, titleMatch := ti } : Flt.BAtoms))
+  let init : List Flt.TB := (List.range n).zip blocks |>.map (fun (i, (ms, nw, na, tl, os, oe, ls, c)) =>
+    { members := ms, numWords := nw, numAnchor := na, tagLevel := tl, offStart := os, offEnd := oe, labels := ls, content := c, first := i })
+  match Flt.runTrace atoms Flt.articleFilters init with
+  | none => pure "P"
+  | some tr =>
+    let stages := (tr.drop 2).map (fun (l, ch) => s!"{bstr ch}:{";".intercalate (l.map tbStr)}")
+    let final := match tr.getLast? with | some (l, _) => l | none => init
+    pure s!"{" | ".intercalate stages} | wc={Flt.countWordsInContent final} c={",".intercalate ((Flt.contentMembers final).map toString)} t={",".intercalate ((Flt.titleMembers final).map toString)}"
+
 def dispatch (slice : String) : Option (P String) :=
   match slice with
   | "docfilters" => some docfilters
@@ -413,6 +452,7 @@ def dispatch (slice : String) : Option (P String) :=
   | "prevnext" => some prevnextSlice
   | "pagegroups" => some pagegroupsSlice
   | "pathpaging" => some pathpagingSlice
+  | "filters" => some filtersSlice
   | _ => none
 
 def answer (line : String) : String :=
